@@ -143,6 +143,22 @@ def componentwise_rule(ctx, rid, only=None):
                             ctx.bad("%s::%s never touches component(s) %s although the other lattice operations of the class combine them" %
                                     (fn["cpk"].split("::")[-1], name, sorted(really)), fn, fn["body"],
                                     sig="component-dropped:%s:%s:%s" % (fn["pk"], name, ",".join(sorted(really))), rid=rid)
+                # conversely: what join / widening combine is part of the abstract state, so the inclusion test compares it
+                # (finding F42: a stable-looking iterate whose cached facts are still changing is not a post-fixpoint)
+                if only is None:
+                    leqf = [x for x in fns if x["name"] == "operator<="][0]
+                    joinc = set()
+                    for name, cs in comps_by_fn.items():
+                        if _kind(name) == "join":
+                            joinc |= cs
+                    ignored = sorted(joinc - allc)
+                    if ignored:
+                        ctx.bad("%s::operator<= never compares component(s) %s although join / widening combine them: a value whose %s is "
+                                "weaker is declared included, so a fixpoint iteration stops while that component is still changing" %
+                                (leqf["cpk"].split("::")[-1], ignored, ignored[0]), leqf, leqf["body"],
+                                sig="leq-ignores-component:%s:%s" % (leqf["pk"], ",".join(ignored)), rid=rid)
+                    else:
+                        ctx.ok("%s::operator<= compares every component that join combines" % leqf["cpk"].split("::")[-1], leqf, None, rid=rid)
     if len(n_classes) < 5:
         ctx.fail("rule %s: component-wise lattice operations found in %d classes only" % (rid, len(n_classes)))
 
